@@ -937,8 +937,10 @@ pub fn run(run: &'static Run) {
     run.assume("git 2.39.5 (pack-objects, index-pack [--fix-thin], show-index, cat-file --batch) is generator and oracle");
     run.assume("streams use --delta-base-offset, i.e. ref-deltas occur only for bases outside the pack: gitoxide documents that in-pack ref-deltas are not supported by write_data_iter_to_stream / the thin-pack resolver (it always negotiates ofs-delta)");
     run.assume("faults are judged in Mode::Verify (the default); Mode::Restore is designed to salvage damaged streams and Mode::AsIs skips the checksum by contract");
-    run.assume("the schedule exploration (E3) of the multi-threaded delta-tree traversal is not part of this check; thread limits 1,2,3,16 run on the OS scheduler");
+    run.assume("git-made packs run with thread limits 1,2,3,16 on the OS scheduler; the interleavings of the multi-threaded delta-tree resolution are explored on hand-assembled packs (sub-check index-thread-schedules)");
     run.budget_secs(run.pick(150.0, 1200.0)); // safety net only: sized for ~10 s / ~3 min on an idle 16-core machine
+    // E3 part: thread schedules of the delta-tree resolution on hand-assembled packs
+    crate::c10c::schedules(run);
     run.require("full and thin packs exist", n_full >= 10 && n_thin >= 8);
     run.require("packs with >= 2 ofs-deltas exist", fxs.iter().any(|p| p.n_ofs >= 2));
     run.require("thin packs with external bases exist", fxs.iter().any(|p| p.thin && p.n_ref >= 1));
